@@ -21,73 +21,61 @@ def RescaledBaseFeasible (base : AssetProblem) (k : Rat) (x : Vec) : Prop :=
     else base.l.getD j 0 ≤ x j ∧ x j ≤ base.u.getD j 0) ∧
   ∀ r ∈ base.rows, (scaleRhs k r).Sat x
 
-/-- **C16 (scaled asset at a fixed scale).**  Let the base problem be regular (its dispatch variables
-    are all its variables, in order — the condition under which the code's `eye(nD)` block addresses
-    the right columns; otherwise the code raises or builds something else, see `scaled_irregular`)
-    with bounds of the right length, `0 < norm`, and let `(x, s)` be a point whose scale component
-    `s = x n` satisfies `0 ≤ s`, `min_scale ≤ s ≤ max_scale`.  Then `(x, s)` satisfies bounds and rows
-    of the scaled problem iff `x` satisfies the base problem with every right-hand side and the bounds
-    of every dispatch variable multiplied by `s/norm` (the widened box
-    `min(0,l)·max_scale/norm ≤ x ≤ max(0,u)·max_scale/norm` is implied: that needs exactly `0 ≤ s ≤ max_scale`),
-    and the value is the base value minus `s · fix_costs · Σdt`. -/
+/-- **C16 (scaled asset at a fixed scale).**  For ANY non-empty base problem whose bounds have the right
+    length and whose dispatch variables are variables of the base (`d < n`; implied by "mapping rows point
+    at base variables", `dispVars_lt`), with `0 < norm`: let `(x, s)` be a point whose scale component
+    `s = x n` satisfies `0 ≤ s`, `min_scale ≤ s ≤ max_scale`.  Then `(x, s)` satisfies bounds and rows of the
+    scaled problem iff `x` satisfies the base problem with every right-hand side and the bounds of every
+    dispatch variable multiplied by `s/norm`, the bounds of all other variables (internal, boolean, without
+    mapping row) unchanged — the widened box `min(0,l)·max_scale/norm ≤ x ≤ max(0,u)·max_scale/norm` is
+    implied, which needs exactly `0 ≤ s ≤ max_scale` and `0 < norm` — and the value is the base value minus
+    `s · fix_costs · Σdt`.  (No hypothesis on the columns of the base rows is needed for the equivalence;
+    `scaled_wf` uses `columns < n` to show that the rows stay inside the `n + 1` variables.) -/
 theorem scaled_fixed (p : ScaledP) (base : AssetProblem) (dtSum : Rat) (x : Vec) (s : Rat)
-    (hreg : ScaledRegular base) (hne : 0 < base.n)
-    (hl : base.l.length = base.n) (hu : base.u.length = base.n)
+    (hne : 0 < base.n) (hl : base.l.length = base.n) (hu : base.u.length = base.n)
+    (hdisp : ∀ d ∈ dispVars base.mapping, d < base.n)
     (hnorm : 0 < p.normScale) (h0 : 0 ≤ s) (hmin : p.minScale ≤ s) (hmax : s ≤ p.maxScale)
     (hxs : x base.n = s) :
     ((buildScaled p base dtSum).FeasibleRelaxed x ↔ RescaledBaseFeasible base (s / p.normScale) x) ∧
     - costAt (buildScaled p base dtSum).c 0 x = - costAt base.c 0 x - s * p.fixCosts * dtSum := by
   have hlne : ¬ base.l.length = 0 := by omega
-  unfold ScaledRegular at hreg
-  have hnD : (dispVars base.mapping).length = base.n := by rw [hreg]; simp
-  have hcont : ∀ j, j < base.n → (dispVars base.mapping).contains j = true := by
-    intro j hj; rw [hreg]; simpa using hj
-  have hIget : ∀ j (h : j < (dispVars base.mapping).length), (dispVars base.mapping)[j] = j := by
-    intro j h; simp [hreg]
   constructor
   · unfold buildScaled
     rw [if_neg hlne]
     unfold AssetProblem.FeasibleRelaxed RescaledBaseFeasible buildScaledCore
-    simp only [hnD]
+    simp only [hl]
     rw [inBounds_append _ _ _ _ base.n (by rw [mapAt_length, hl]) (by rw [mapAt_length, hu]),
       inBounds_single, Nat.add_zero, hxs]
-    simp only [List.forall_mem_append, rows_forall_map_scaleRow, mem_zipIdx_map, List.length_map]
+    simp only [List.forall_mem_append, List.forall_mem_map, tieRow_U_sat,
+      tieRow_L_sat, scaleRow_sat, hxs]
     constructor
     · rintro ⟨⟨hb, _⟩, ⟨hrows, hU⟩, hL⟩
-      refine ⟨fun j hj => ?_, fun r hr => ?_⟩
-      · rw [if_pos (hcont j hj)]
-        have hj' : j < (dispVars base.mapping).length := by omega
-        have h1 := hU _ ⟨j, hj', rfl⟩
-        have h2 := hL _ ⟨j, hj', rfl⟩
-        rw [tieRow_U_sat] at h1
-        rw [tieRow_L_sat] at h2
-        simp only [List.getElem_map, hIget j hj', hxs] at h1 h2
-        exact ⟨h2, h1⟩
-      · have := hrows r hr
-        rwa [scaleRow_sat, hxs] at this
+      refine ⟨fun j hj => ?_, hrows⟩
+      have hbj := hb j (by rw [mapAt_length, hl]; exact hj)
+      rw [mapAt_getD _ _ _ _ (by omega), mapAt_getD _ _ _ _ (by omega)] at hbj
+      by_cases hc : (dispVars base.mapping).contains j = true
+      · rw [if_pos hc]
+        have hmem : j ∈ dispVars base.mapping := by simpa using hc
+        exact ⟨hL j hmem, hU j hmem⟩
+      · rw [if_neg hc]
+        simpa only [hc, Bool.false_eq_true, if_false] using hbj
     · rintro ⟨hb, hrows⟩
-      refine ⟨⟨fun j hj => ?_, ⟨hmin, hmax⟩⟩, ⟨fun r hr => ?_, ?_⟩, ?_⟩
+      refine ⟨⟨fun j hj => ?_, ⟨hmin, hmax⟩⟩, ⟨hrows, fun d hd => ?_⟩, fun d hd => ?_⟩
       · rw [mapAt_length, hl] at hj
         have := hb j hj
-        rw [if_pos (hcont j hj)] at this
         rw [mapAt_getD _ _ _ _ (by omega), mapAt_getD _ _ _ _ (by omega)]
-        simp only [hcont j hj, if_true]
-        exact ⟨Rat.le_trans (widened_lower (base.l.getD j 0) s p.maxScale p.normScale hnorm h0 hmax) this.1,
-               Rat.le_trans this.2 (widened_upper (base.u.getD j 0) s p.maxScale p.normScale hnorm h0 hmax)⟩
-      · rw [scaleRow_sat, hxs]; exact hrows r hr
-      · rintro r ⟨j, hj, rfl⟩
-        have hj' : j < base.n := by omega
-        have := hb j hj'
-        rw [if_pos (hcont j hj')] at this
-        rw [tieRow_U_sat]
-        simp only [List.getElem_map, hIget j hj, hxs]
+        by_cases hc : (dispVars base.mapping).contains j = true
+        · rw [if_pos hc] at this
+          simp only [hc, if_true]
+          exact ⟨Rat.le_trans (widened_lower (base.l.getD j 0) s p.maxScale p.normScale hnorm h0 hmax) this.1,
+                 Rat.le_trans this.2 (widened_upper (base.u.getD j 0) s p.maxScale p.normScale hnorm h0 hmax)⟩
+        · rw [if_neg hc] at this
+          simpa only [hc, Bool.false_eq_true, if_false] using this
+      · have := hb d (hdisp d hd)
+        rw [if_pos (by simpa using hd)] at this
         exact this.2
-      · rintro r ⟨j, hj, rfl⟩
-        have hj' : j < base.n := by omega
-        have := hb j hj'
-        rw [if_pos (hcont j hj')] at this
-        rw [tieRow_L_sat]
-        simp only [List.getElem_map, hIget j hj, hxs]
+      · have := hb d (hdisp d hd)
+        rw [if_pos (by simpa using hd)] at this
         exact this.1
   · unfold buildScaled
     rw [if_neg hlne]
@@ -97,8 +85,8 @@ theorem scaled_fixed (p : ScaledP) (base : AssetProblem) (dtSum : Rat) (x : Vec)
     have : x base.c.length = s := hxs
     rw [this]; grind
 
-/-- non-vacuity of `scaled_fixed`: a regular base (two dispatch variables, one row `x0 + x1 ≤ 3`), scale 1 of
-    norm 2, a feasible point; and the same point is infeasible at scale 1/2 -/
+/-- non-vacuity of `scaled_fixed`: a base with two dispatch variables, one row `x0 + x1 ≤ 3`, scale 1 of
+    norm 2, a feasible point -/
 def exBase : AssetProblem :=
   { name := "b", nodes := ["n"], c := [2, -1], l := [0, -1], u := [4, 0],
     rows := [⟨[(0, 1), (1, 1)], 3, .U⟩],
@@ -106,92 +94,83 @@ def exBase : AssetProblem :=
 def exP : ScaledP := { name := "s", node0 := "n", minScale := 0, maxScale := 2, normScale := 2, fixCosts := 3 }
 def exX : Vec := fun j => if j = 0 then 3/2 else if j = 1 then -1/4 else if j = 2 then 1 else 0
 
-example : ScaledRegular exBase ∧ LastVarMapped exBase ∧ (buildScaled exP exBase 4).FeasibleRelaxed exX ∧
+example : (∀ d ∈ dispVars exBase.mapping, d < exBase.n) ∧ (buildScaled exP exBase 4).FeasibleRelaxed exX ∧
     RescaledBaseFeasible exBase (1 / 2) exX ∧ - costAt (buildScaled exP exBase 4).c 0 exX = - costAt exBase.c 0 exX - 12 := by
   unfold RescaledBaseFeasible
   decide +kernel
 
-/-- the guard `ScaledRegular` cannot be dropped (finding S-1): an order book with an order outside the
-    horizon is a base with a variable without mapping row (`x1`).  The scaled problem ties `x0` to `x1`
-    instead of the scale `x2`: the point "order fully executed at scale 0" is feasible for the scaled
-    problem but not for the base rescaled by 0; and the scale's mapping row points at `x1`. -/
+/-- the case that was wrong before the repair 8409988 (finding S-1): an order book with the order `x0` in
+    the horizon (two steps) and an order `x1` outside (a variable without mapping row, not a dispatch
+    variable).  Now `x0` is tied to the scale `x2`: "order fully executed at scale 0" is infeasible, the
+    point (1/2, 1, 1/2) is feasible for the scaled problem and for the base rescaled by 1/2 (where `x1`
+    keeps its box [0,1]); the scale's mapping row points at variable 2. -/
 def exOB : AssetProblem :=
   { name := "ob", nodes := ["n"], c := [-12, 0], l := [0, 0], u := [1, 1], rows := [],
     mapping := [⟨0, "ob", some "n", .d, 0, 1, false, "0"⟩, ⟨0, "ob", some "n", .d, 1, 1, false, "0"⟩] }
 def exPOB : ScaledP := { name := "s", node0 := "n", minScale := 0, maxScale := 1, normScale := 1, fixCosts := 1 }
-def exXOB : Vec := fun j => if j = 0 then 1 else if j = 1 then 1 else 0
+def exXOB0 : Vec := fun j => if j = 0 then 1 else if j = 1 then 1 else 0
+def exXOB : Vec := fun j => if j = 0 then 1/2 else if j = 1 then 1 else 1/2
 
-example : ¬ ScaledRegular exOB ∧ ¬ LastVarMapped exOB ∧ (buildScaled exPOB exOB 4).FeasibleRelaxed exXOB ∧ exXOB 2 = 0 ∧
-    ¬ RescaledBaseFeasible exOB (0 / 1) exXOB ∧
-    (buildScaled exPOB exOB 4).mapping.getLast? = some ⟨1, "s", some "n", .other "size", 0, 1, false, "scale"⟩ := by
+example : dispVars exOB.mapping = [0] ∧ ¬ (buildScaled exPOB exOB 4).FeasibleRelaxed exXOB0 ∧
+    (buildScaled exPOB exOB 4).FeasibleRelaxed exXOB ∧ RescaledBaseFeasible exOB ((1/2) / 1) exXOB ∧
+    ¬ RescaledBaseFeasible exOB ((1/2) / 1) (fun j => if j = 1 then 2 else exXOB j) ∧
+    (buildScaled exPOB exOB 4).mapping.getLast? = some ⟨2, "s", some "n", .other "size", 0, 1, false, "scale"⟩ := by
   unfold RescaledBaseFeasible
   decide +kernel
 
 /-- **C16 (scaled asset, shape).**  For a non-empty base problem with bounds of the right length, rows
-    and mapping rows that mention base variables only, and at most `n` dispatch variables (true for a
-    regular base), the scaled problem has `n + 1` variables, bounds of that length,
-    `|rows| + 2·nD` rows whose columns are `< n + 1`, and a mapping all of whose rows carry the scaled
-    asset's name and point at variables `< n + 1`; its last mapping row is the row of the scale
-    (`type 'size'`, `var_name 'scale'`, step 0, first node) under the label `max label + 1`, and that
-    label is the position `n` of the scale variable iff the last base variable has a mapping row
-    (`LastVarMapped`, see `lastVarMapped_iff`). -/
+    and mapping rows that mention base variables only, the scaled problem has `n + 1` variables, bounds of
+    that length, `|rows| + 2·nD` rows whose columns are `< n + 1`, and a mapping all of whose rows carry
+    the scaled asset's name and point at variables `< n + 1`; its last mapping row is the row of the scale
+    (`type 'size'`, `var_name 'scale'`, step 0, first node, not boolean) and points at variable `n`, the
+    scale variable — whether or not the last base variable has a mapping row. -/
 theorem scaled_wf (p : ScaledP) (base : AssetProblem) (dtSum : Rat) (hne : 0 < base.n)
     (hl : base.l.length = base.n) (hu : base.u.length = base.n)
     (hcols : ∀ r ∈ base.rows, ∀ q ∈ r.coeffs, q.1 < base.n)
-    (hmap : ∀ m ∈ base.mapping, m.var < base.n)
-    (hnD : (dispVars base.mapping).length ≤ base.n) :
+    (hmap : ∀ m ∈ base.mapping, m.var < base.n) :
     (buildScaled p base dtSum).n = base.n + 1 ∧
     (buildScaled p base dtSum).l.length = base.n + 1 ∧ (buildScaled p base dtSum).u.length = base.n + 1 ∧
     (buildScaled p base dtSum).rows.length = base.rows.length + 2 * (dispVars base.mapping).length ∧
     (∀ r ∈ (buildScaled p base dtSum).rows, ∀ q ∈ r.coeffs, q.1 < base.n + 1) ∧
     (∀ m ∈ (buildScaled p base dtSum).mapping, m.var < base.n + 1 ∧ m.asset = p.name) ∧
-    (buildScaled p base dtSum).mapping.getLast? = some (scaleMapRow p (maxIndex base.mapping + 1)) ∧
-    ((scaleMapRow p (maxIndex base.mapping + 1)).var = base.n ↔ LastVarMapped base) := by
+    (buildScaled p base dtSum).mapping.getLast? = some (scaleMapRow p base.n) ∧
+    (scaleMapRow p base.n).var = base.n ∧ (scaleMapRow p base.n).kind = .other "size" ∧
+    (scaleMapRow p base.n).isBool = false := by
   have hlne : ¬ base.l.length = 0 := by omega
-  have hmax : maxIndex base.mapping < base.n := by
-    by_cases he : base.mapping = []
-    · rw [he]; simpa [maxIndex] using hne
-    · obtain ⟨m, hm, hv⟩ := maxIndex_mem base.mapping he
-      rw [← hv]; exact hmap m hm
+  have hdisp := dispVars_lt base hmap
   unfold buildScaled
   rw [if_neg hlne]
-  refine ⟨?_, ?_, ?_, ?_, ?_, ?_, ?_, ?_⟩
+  refine ⟨?_, ?_, ?_, ?_, ?_, ?_, ?_, rfl, rfl, rfl⟩
   · show (base.c ++ [p.fixCosts * dtSum]).length = _
     simp [AssetProblem.n]
   · show (mapAt _ _ base.l ++ [p.minScale]).length = _
     simp [mapAt_length, hl]
   · show (mapAt _ _ base.u ++ [p.maxScale]).length = _
     simp [mapAt_length, hu]
-  · simp only [buildScaledCore, List.length_append, List.length_map, List.length_zipIdx]
+  · simp only [buildScaledCore, List.length_append, List.length_map]
     omega
   · intro r hr q hq
-    simp only [buildScaledCore, List.mem_append] at hr
+    simp only [buildScaledCore, List.mem_append, hl] at hr
     rcases hr with (hr | hr) | hr
     · obtain ⟨r', hr', rfl⟩ := List.mem_map.mp hr
       simp only [scaleRow, List.mem_append, List.mem_singleton] at hq
       rcases hq with hq | rfl
       · have := hcols r' hr' q hq; omega
       · simp only []; omega
-    · obtain ⟨k, hk, rfl⟩ := (mem_zipIdx_map _ _ _).mp hr
-      rw [List.length_map] at hk
+    · obtain ⟨d, hd, rfl⟩ := List.mem_map.mp hr
+      have := hdisp d hd
       simp only [tieRow, List.mem_cons, List.not_mem_nil, or_false] at hq
       rcases hq with rfl | rfl <;> simp only [] <;> omega
-    · obtain ⟨k, hk, rfl⟩ := (mem_zipIdx_map _ _ _).mp hr
-      rw [List.length_map] at hk
+    · obtain ⟨d, hd, rfl⟩ := List.mem_map.mp hr
+      have := hdisp d hd
       simp only [tieRow, List.mem_cons, List.not_mem_nil, or_false] at hq
       rcases hq with rfl | rfl <;> simp only [] <;> omega
   · intro m hm
-    simp only [buildScaledCore, List.mem_append, List.mem_map, List.mem_singleton] at hm
+    simp only [buildScaledCore, List.mem_append, List.mem_map, List.mem_singleton, hl] at hm
     rcases hm with ⟨m', hm', rfl⟩ | rfl
     · exact ⟨by have := hmap m' hm'; simp only []; omega, rfl⟩
     · exact ⟨by simp only [scaleMapRow]; omega, rfl⟩
-  · simp [buildScaledCore]
-  · unfold LastVarMapped scaleMapRow
-    simp
-
-/-- a regular base has exactly `n` dispatch variables -/
-theorem regular_nD (base : AssetProblem) (h : ScaledRegular base) : (dispVars base.mapping).length = base.n := by
-  unfold ScaledRegular at h; rw [h]; simp
+  · simp [buildScaledCore, hl]
 
 /-- an empty base problem (base asset not active in the horizon) is handed on unchanged -/
 theorem scaled_empty (p : ScaledP) (base : AssetProblem) (dtSum : Rat) (h : base.l.length = 0) :
